@@ -9,6 +9,13 @@ VSSD_NS = "http://schemas.dmtf.org/wbem/wscim/1/cim-schema/2/CIM_VirtualSystemSe
 VBOX_NS = "http://www.virtualbox.org/"
 
 
+def text_of(value: str, cdata: bool) -> str:
+    """Character data: escaped, or -- where the document uses them -- as a CDATA section (markup characters stand for themselves)."""
+    if cdata and ("&" in value or "<" in value) and "]]>" not in value:
+        return f"<![CDATA[{value}]]>"
+    return escape(value)
+
+
 # --------------------------------------------------------------------------------------------------- OVF
 def ovf_xml(spec: dict, prolog: str = "") -> str:
     """spec = {"files": [[id, href]], "disks": [[diskId, fileRef]], "items": [{"rt": int, "host": str|None, "name": str}],
@@ -73,7 +80,7 @@ def ovf_xml(spec: dict, prolog: str = "") -> str:
     out.append(f"      <{el('System')}><vssd:InstanceID>0</vssd:InstanceID></{el('System')}>")
     for n, it in enumerate(spec["items"]):
         out.append(f"      <{el('Item')}>")
-        out.append(f"        <{rp}:ElementName>{escape(it.get('name', 'dev'))}</{rp}:ElementName>")
+        out.append(f"        <{rp}:ElementName>{text_of(it.get('name', 'dev'), spec.get('cdata'))}</{rp}:ElementName>")
         if it.get("host") is not None:
             out.append(f"        <{rp}:HostResource>{escape(it['host'])}</{rp}:HostResource>")
         out.append(f"        <{rp}:InstanceID>{n + 1}</{rp}:InstanceID>")
@@ -183,7 +190,7 @@ def pvs_xml(spec: dict, prolog: str = "") -> str:
         out.append(f'    <{d["kind"]} dyn_lists="Partition 0" id="{i}">')
         body = ["      <Index>%d</Index>" % i, "      <Enabled>1</Enabled>"]
         if d.get("system_name") is not None:
-            sn = f"      <SystemName>{escape(d['system_name'])}</SystemName>"
+            sn = f"      <SystemName>{text_of(d['system_name'], spec.get('cdata'))}</SystemName>"
             body = [sn] + body if d.get("first") else body + [sn]
         out += body
         for j, pn in enumerate(d.get("partitions") or []):  # Boot Camp / physical-disk style partition lists with names of their own
